@@ -1291,7 +1291,9 @@ class FortranWriter(LanguageWriter):
                     # We still may need to enforce precedence
                     if (isinstance(parent, UnaryOperation) or
                             (isinstance(parent, BinaryOperation) and
-                             parent.children[1] == node)):
+                             (parent.children[1] == node or
+                              parent.operator ==
+                              BinaryOperation.Operator.POW))):
                         # We need brackets to enforce precedence
                         # as a) a unary operator is performed
                         # before a binary operator and b) floating
